@@ -20,7 +20,7 @@ def higherAvail (eps : List Ep) (p : Nat) : Bool := eps.any fun e => isAvail e &
 
 def liveTimers (s : St) : List Timer := s.timers.filter fun t => !t.stopped
 
-def isRecoveryTimer (t : Timer) : Bool := match t.kind with | .recovery _ _ => true | .switch => false
+def isRecoveryTimer (t : Timer) : Bool := match t.kind with | .recovery _ _ _ => true | .switch => false
 
 def liveRecoveryCount (s : St) : Nat := ((liveTimers s).filter isRecoveryTimer).length
 
@@ -128,9 +128,13 @@ def c14_cancel (pre : St) (op : Op) (post : St) : Bool :=
 
 /-- C14.5 with a switching delay, a report / list replacement never moves `current` away from an
     endpoint that is still in the list and available or recovering -/
+def isApiCall : Op → Bool
+  | .setAvail _ _ => true
+  | .setEndpoints _ => true
+  | _ => false
+
 def c14_no_preempt (pre : St) (op : Op) (post : St) : Bool :=
-  let api := match op with | .setAvail _ _ => true | .setEndpoints _ => true | _ => false
-  if api && pre.d != 0 then
+  if isApiCall op && pre.d != 0 then
     match findEp post.eps pre.current with
     | some c => if c.status != .unavailable then post.current == pre.current else true
     | none => true
